@@ -20,11 +20,15 @@ def _work(task):
     recs = []
     for src, feats in srcs:
         r = srcpipe.pipeline(src)
-        recs.append({"outcome": r["outcome"], "stage": r["stage"], "exc": r["exc"], "census": r["census"] or {}, "src": src, "feats": feats})
+        recs.append({"outcome": r["outcome"], "stage": r["stage"], "exc": r["exc"], "census": r["census"] or {}, "src": src, "feats": feats,
+                     "flat": r.get("flat", {}), "skeleton": r.get("skeleton", []), "skexc": r.get("skeleton_exc", "")})
     with open(path, "w") as f:
         json.dump([{k: r[k] for k in ("outcome", "stage", "census")} for r in recs], f, separators=(",", ":"))
+    sk = [{"flat": r["flat"], "code": r["skeleton"]} for r in recs if r["outcome"] == "ok" and not r["skexc"]]
+    with open(path.replace("census-", "skeleton-"), "w") as f:
+        json.dump(sk, f, separators=(",", ":"))
     return [{k: r[k] for k in ("outcome", "stage", "exc", "src", "feats")} | {"nasg": len((r["census"] or {}).get("exp_asg", [])),
-                                                                            "outside": ",".join((r["census"] or {}).get("outside", []))} for r in recs]
+                                                                            "outside": ",".join((r["census"] or {}).get("outside", [])), "skexc": r["skexc"]} for r in recs]
 
 
 def main(argv):
@@ -60,6 +64,24 @@ def main(argv):
                 for clause in st["bad"]:
                     rep.violation(clause, {"src": m["src"], "feats": m["feats"]}, detail={"exc": m["exc"], "stage": m["stage"]},
                                   signature={"clause": clause.split("/")[0], "exc": m["exc"], "outside": m["outside"]})
+        # all decision paths, skeleton level (Skeleton.tla): product of the flat graph with the generated code
+        skres = tlc.run_shards("Skeleton", "INIT Init\nNEXT Next\nINVARIANT SamePaths\nCHECK_DEADLOCK FALSE\n",
+                               [{"CASES": t[1].replace("census-", "skeleton-")} for t in tasks], jobs=args.jobs, workers=1, timeout=3000)
+        tlc.require_ok(skres, "Skeleton")
+        sk_states = 0
+        for meta, tr in zip(metas, skres):
+            sk_states += tr.distinct
+            states += tr.distinct
+            gen += tr.generated
+            okm = [m for m in meta if m["outcome"] == "ok" and not m["skexc"]]
+            for m in meta:
+                if m["outcome"] == "ok" and m["skexc"]:
+                    raise tlc.MachineryError("skeleton extraction does not recognise the generated code: %s\n%s" % (m["skexc"], m["src"]))
+            for v in tr.violations:
+                st = tlc.parse_state(v["states"][-1])
+                m = okm[st["tid"] - 1]
+                rep.violation("AllPaths/" + st["bad"], {"src": m["src"], "feats": m["feats"]}, detail={"decision_path_length": len(v["states"])},
+                              signature={"clause": "AllPaths", "exc": "", "outside": m["outside"]})
     finally:
         tlc.cleanup(d)
     flat = [m for ms in metas for m in ms]
@@ -74,7 +96,7 @@ def main(argv):
         "distinct_nontrivial": sum(1 for m in acc if m["nasg"] > 0),
         "rule": "seeded generated programs of the supported subset (feature switches of DESIGN 6.1) through AST2SCFG -> restructure -> SCFG2AST -> unparse -> compile; "
                 "the census of the output tree is judged by TLC; non-trivial = an accepted program whose restructured graph holds synthetic assignments",
-        "accepted": len(acc), "refused": sum(1 for m in flat if m["outcome"] == "refused"), "internal_errors": sum(1 for m in flat if m["outcome"] == "internal"),
+        "all_paths_product_states": sk_states, "accepted": len(acc), "refused": sum(1 for m in flat if m["outcome"] == "refused"), "internal_errors": sum(1 for m in flat if m["outcome"] == "internal"),
         "outcomes_by_feature": byfeat, "exhaustive": False,
         "samples": [m["src"] for m in acc[:2]],
     })
